@@ -42,6 +42,15 @@ int main(int argc, char** argv) {
         // one case in sixteen: very many steps per period on a small mesh (per-step displacements of 1e-4 cell and less near the zero bins)
         bool longrun = (c % 16 == 7);
         if (longrun) { n = (uint32_t)r.range(32, 40); steps = (uint32_t)std::round(r.logu(1e5, 3e5)); it = 3 + (int)(c / 16 % 2); M.ev("cases_with_1e5_steps_per_period"); }
+        // one case in sixteen at scale: a mesh of 300-1030 cells, or a train of 17-260 bunches (few steps per period: the statement holds for any number)
+        const bool scale = (c % 16 == 11);
+        uint32_t scale_nb = 0;
+        if (scale) {
+            static const uint32_t big_n[] = {300, 520, 1030}, big_nb[] = {17, 40, 260};
+            steps = (uint32_t)r.range(24, 60);
+            if ((c / 16) % 2 == 0) { n = big_n[(c / 32) % 3]; M.ev("cases_on_meshes_beyond_256_cells"); }
+            else { n = 48; scale_nb = big_nb[(c / 32) % 3]; M.ev("cases_with_trains_beyond_16_bunches"); }
+        }
         double a = PI2 / steps;
         double shiftx = r.chance(0.6) ? r.uni(-3, 3) : 0, shifty = r.chance(0.6) ? r.uni(-3, 3) : 0;
         const double pq = 12, d = pq / (n - 1);
@@ -49,6 +58,7 @@ int main(int argc, char** argv) {
         double qscale = r.logu(1e-3, 3e-3), pscale = r.logu(2e5, 2e6), fRF = r.logu(1e8, 5e8), V = r.logu(2e5, 4e6);   // k_RF*sigma <= 0.03: 'small amplitudes'
         // a quarter of the cases are trains of 2-3 bunches, each with its own start: "any distribution" includes every bunch of a train
         uint32_t nb = (c % 4 == 3 && !longrun) ? (uint32_t)r.range(2, 3) : 1;
+        if (scale) nb = scale_nb ? scale_nb : 1;
         // one case in ten asks for clamped interpolation (a no-op in the CPU kick maps of this tree; a limiter, where implemented, does not
         // transport first moments exactly): judged by the statement's rotation bound only, with a third of a cell of allowance
         bool clamp = (c % 10 == 9);
